@@ -46,3 +46,17 @@ Proof.
   refine (proj2 (stmt_ok_splice U_all _ _ _ _ (all_sql_dash_ok U_all ver srcs g _ (SafeIg_all g)) Hst Hpc)).
   apply Forall_trivial. intros. apply safe_all.
 Qed.
+
+(* sources added through the dashboard: accepted by SaveSource => safe *)
+Lemma dash_sources_splices_safe : forall U checked ver srcs g,
+  check_paths checked spliced = true ->
+  check_user_input U checked (root_of g) = true -> Forall (fun s => save_source_ok U s = true) srcs ->
+  forall st p v, In st (all_sql_dash ver srcs g) -> In (Splice p v) (st_text st) ->
+  safe U v = true /\ In p spliced_paths.
+Proof.
+  intros U checked ver srcs g Hcp Hcu Hs. apply (dash_splices_safe U checked ver srcs g Hcp Hcu).
+  apply Forall_forall. intros s Hin. rewrite Forall_forall in Hs. specialize (Hs s Hin).
+  unfold save_source_ok in Hs. apply andb_true_iff in Hs as [_ H]. exact H.
+Qed.
+Lemma save_source_rejects_unsafe : forall U name, safe U name = false -> save_source_ok U name = false.
+Proof. intros U name H. unfold save_source_ok. rewrite H. apply andb_false_r. Qed.
